@@ -187,6 +187,17 @@ Theorem C07_extend_then_remove_hides_only_inner : forall base o n,
   (forall m, m <> n -> has_visible_field e m = has_visible_field (extend base o) m).
 Proof. exact extend_then_remove_hides_only_inner. Qed.
 
+(* ---- what the generated programs denote ---- *)
+
+(* every object a generated program builds (literals with distinct names, +, objectRemoveKey,
+   mapWithKey, prune, mergePatch) meets the hypothesis [wf_obj] of the theorems above *)
+Theorem C07_build_wf : forall e o, wf_oexpr e -> build e = Ok o -> wf_obj o.
+Proof. exact build_wf. Qed.
+
+(* a + b + c denotes the same object, or the same failure, in both bracketings *)
+Theorem C07_build_assoc : forall a b c, build (OPlus (OPlus a b) c) = build (OPlus a (OPlus b c)).
+Proof. exact build_assoc. Qed.
+
 (* ---- non-vacuity: {a:: 1, b: 2} + std.objectRemoveKey({a::: 3, c::: self.a}, "a") + {a+: 4, b:: super.b}
    is well formed, has a name in three layers and a Removed marker in between; the hypotheses
    of every implication above are met by it (wf_obj; a Normal default-visibility top field;
@@ -236,5 +247,7 @@ Print Assumptions C07_remove_key_exact.
 Print Assumptions C07_remove_key_order.
 Print Assumptions C07_remove_then_extend.
 Print Assumptions C07_extend_then_remove_hides_only_inner.
+Print Assumptions C07_build_wf.
+Print Assumptions C07_build_assoc.
 Print Assumptions C07_nonvacuous.
 Print Assumptions C07_prefix_defect_witness.
